@@ -218,8 +218,9 @@ Definition pfold_postfix (k : nat) (l op : val) (sp : span) : val := VTag k (VLi
 (* the bounds in force after configuration: what the closure set overrides the static bound *)
 (* ck: 0 exactly(n), 1 at_least(n), 2 at_most(n), 3 nothing set, through configure; 4..7 the same through try_configure
    (closure returns Ok); 8: try_configure whose closure returns Err(custom lo) when the context holds no token, Ok(exactly(n)) otherwise *)
-Definition cfg_lo (ck lo n : nat) : nat := match ck with 0 | 1 | 4 | 5 | 8 => n | _ => lo end.
-Definition cfg_hi (ck : nat) (hi : option nat) (n : nat) : option nat := match ck with 0 | 2 | 4 | 6 | 8 => Some n | _ => hi end.
+(* 9: cfg.at_most(n).at_least(n / 2), 10: cfg.at_least(n / 2).at_most(n) - the two builder orders of the same bounds *)
+Definition cfg_lo (ck lo n : nat) : nat := match ck with 0 | 1 | 4 | 5 | 8 => n | 9 | 10 => Nat.div2 n | _ => lo end.
+Definition cfg_hi (ck : nat) (hi : option nat) (n : nat) : option nat := match ck with 0 | 2 | 4 | 6 | 8 | 9 | 10 => Some n | _ => hi end.
 Definition cfg_fails (ck n : nat) : bool := andb (Nat.eqb ck 8) (Nat.eqb n 0).
 
 (* derived forms, as in Rust *)
